@@ -75,8 +75,13 @@ def tla_value(v):
 CONSTS = ["G", "NodeIds", "CfgC", "DryAll", "AsgMin0", "AsgMax0", "AsgBoundsSet", "KC", "KM", "MaxPend", "EnvOn", "FaultOps",
           "MaxFaults", "TaintKinds", "InitNodes", "PropIds", "EmitRate"]
 
+MULTI_CONSTS = ["Gs", "NodeIdsOf", "CfgOf", "DryAll", "AsgMax0", "KC", "KM", "MaxPend", "EnvOn", "FaultOps", "MaxFaults", "InitNodes", "PropIds", "EmitRate"]
+
+
 def write_model(d, outdir, name="MC", init="Init", next_="Next", view="View"):
     """writes <outdir>/<name>.tla and <name>.cfg for family dict d"""
+    if d.get("module") == "EscalatorMulti":
+        return write_model_multi(d, outdir, name)
     lines = ["---- MODULE %s ----" % name, "EXTENDS Escalator"]
     for c in CONSTS:
         lines.append("mc_%s == %s" % (c, tla_value(d[c])))
@@ -89,6 +94,44 @@ def write_model(d, outdir, name="MC", init="Init", next_="Next", view="View"):
     cfg.append("INVARIANTS " + " ".join(d["invariants"]))
     cfg.append("CHECK_DEADLOCK FALSE")
     open("%s/%s.cfg" % (outdir, name), "w").write("\n".join(cfg) + "\n")
+
+def write_model_multi(d, outdir, name="MC"):
+    lines = ["---- MODULE %s ----" % name, "EXTENDS EscalatorMulti"]
+    gs = d["Gs"]
+    lines.append("mc_Gs == <<%s>>" % ", ".join('"%s"' % g for g in gs))
+    lines.append("mc_NodeIdsOf == [g \\in {%s} |-> %s]" % (", ".join('"%s"' % g for g in gs),
+                 " ".join('IF g = "%s" THEN %s ELSE' % (g, tla_value(d["NodeIdsOf"][g])) for g in gs) + " {}"))
+    lines.append("mc_CfgOf == [g \\in {%s} |-> %s]" % (", ".join('"%s"' % g for g in gs),
+                 " ".join('IF g = "%s" THEN %s ELSE' % (g, tla_value(d["CfgOf"][g])) for g in gs) + " " + tla_value(d["CfgOf"][gs[0]])))
+    for c in MULTI_CONSTS:
+        if c not in ("Gs", "NodeIdsOf", "CfgOf"):
+            lines.append("mc_%s == %s" % (c, tla_value(d[c])))
+    lines.append("====")
+    open("%s/%s.tla" % (outdir, name), "w").write("\n".join(lines) + "\n")
+    cfg = ["CONSTANTS"] + ["  %s <- mc_%s" % (c, c) for c in MULTI_CONSTS]
+    cfg += ["INIT Init", "NEXT Next", "VIEW View", "INVARIANTS " + " ".join(d["invariants"]), "CHECK_DEADLOCK FALSE"]
+    open("%s/%s.cfg" % (outdir, name), "w").write("\n".join(cfg) + "\n")
+
+
+def multi(**kw):
+    cfg_a = dict(BASE_CFG, min=0, max=2)
+    cfg_b = dict(BASE_CFG, min=0, max=2, lower=20, upper=40, up=70)
+    d = dict(module="EscalatorMulti", Gs=["a", "default"], NodeIdsOf={"a": ["a1", "a2"], "default": ["d1"]}, CfgOf={"a": cfg_a, "default": cfg_b}, DryAll=False,
+             AsgMax0=3, KC=1, KM=1, MaxPend=1, EnvOn=[], FaultOps=[], MaxFaults=0, InitNodes=1, PropIds=[], EmitRate=0,
+             invariants=["TypeOK", "Emit", "InvIsolation"], workers=16)
+    d.update(kw)
+    return d
+
+
+FAMILIES["multi"] = multi(EnvOn=["Tick", "PodArrive", "PodSchedule", "PodFinish", "ExtTaint", "ExtForce", "InstanceLost", "Restart"],
+                          FaultOps=["list_pods", "list_nodes", "terminate", "update"], MaxFaults=1)
+TIER_OVERRIDES[("multi", "quick")] = dict(EnvOn=["Tick", "PodArrive", "PodSchedule", "PodFinish", "ExtTaint", "InstanceLost", "Restart"], NodeIdsOf={"a": ["a1"], "default": ["d1"]})
+FAMILIES["multi"]["simulate"] = dict(quick=dict(num=10, depth=30), thorough=dict(num=150, depth=40))
+FAMILIES["multidry"] = multi(EnvOn=["Tick", "PodArrive", "PodSchedule", "PodFinish", "ExtTaint", "ExtForce"], FaultOps=[], MaxFaults=0,
+                             CfgOf={"a": dict(BASE_CFG, min=0, max=2, dry=True), "default": dict(BASE_CFG, min=0, max=2, lower=20, upper=40, up=70)})
+FAMILIES["multidry"]["simulate"] = dict(quick=dict(num=10, depth=30), thorough=dict(num=150, depth=40))
+TIER_OVERRIDES[("multidry", "quick")] = dict(NodeIdsOf={"a": ["a1"], "default": ["d1"]})
+
 
 if __name__ == "__main__":
     import sys, os
